@@ -149,3 +149,12 @@ Example C19_dollar_nonvacuous :
   translate (src_of ks) (rev (name_offsets 0 ks)) (Some 0) = spec_of ks /\
   spec_of ks = s_return ++ s_rec ++ [97; 32; 43; 32; 39; 36; 98; 39; 32; 35; 32; 36; 99; 10] ++ s_rec ++ [100].
 Proof. exact translate_example. Qed.
+
+(* A line made only of a character that is whitespace for the regexps but not a blank for the tokenizer (NBSP here:
+   "x" / NBSP / "y +"): the comment-out is by line_start, so EVERY line gets its '#'.  Commenting with the rule of
+   _indent (only lines holding a non-space) would leave the NBSP line as live text in the module. *)
+Example C19_pseudo_blank_regression :
+  let t := [120; 10; 160; 10; 121; 32; 43] in
+  phys_lines (comment_re (formula_text t)) = [[35; 32; 120]; [35; 32; 160]; [35; 32; 121; 32; 43]] /\
+  phys_lines (indent_re [35; 32] (rstrip (formula_text t))) = [[35; 32; 120]; [160]; [35; 32; 121; 32; 43]].
+Proof. split; vm_compute; reflexivity. Qed.
